@@ -286,6 +286,17 @@ Definition lexical_differs (cf : config) (linkpos : list string) (target lexical
   | Some cp => negb (kres_eqb (cwalk cf (removelast cp) target) (cwalk cf [] lexical))
   end.
 
+(* nesting depth of the host tree: fuel for directory recursion *)
+Fixpoint height (fuel : nat) (n : node) : nat :=
+  match fuel with
+  | O => O
+  | S f => match n with
+           | Dir ents => S (fold_left (fun acc e => Nat.max acc (height f (snd e))) ents O)
+           | _ => 1
+           end
+  end.
+Definition depth_fuel (cf : config) : nat := height 64 (c_host cf) + 4.
+
 Section Copier.
   Variable cf : config.
 
